@@ -12,8 +12,10 @@ Next == i <= Len(Rec) /\ i' = i + 1
 
 TabOf(r) == IF "table" \in DOMAIN r THEN r.table ELSE T0
 
+Opaque(run) == "opaque" \in DOMAIN run      \* entry points over the built-in tables: only the outcome is recorded
 RunWf(T, d, vs, run) ==
-  IF run.outcome # "ok" THEN "bad:outcome-" \o run.outcome
+  IF Opaque(run) THEN (IF run.outcome \in {"ok", "err"} THEN "ok" ELSE "bad:" \o run.outcome)
+  ELSE IF run.outcome # "ok" THEN "bad:outcome-" \o run.outcome
   ELSE IF run.vars # vs THEN "bad:vars"
   ELSE IF ~Same(T, run.den, d.den) THEN "bad:den"
   ELSE IF "lst_panic" \in DOMAIN run THEN "bad:listing-panic"
@@ -29,7 +31,7 @@ RunFree(run) == IF run.outcome \in {"ok", "err"} THEN "ok" ELSE "bad:" \o run.ou
 \* all accepting runs of an unconstrained text must agree with each other
 Agree(T, runs) ==
   \A a, b \in 1..Len(runs) :
-    (runs[a].outcome = "ok" /\ runs[b].outcome = "ok") =>
+    (runs[a].outcome = "ok" /\ runs[b].outcome = "ok" /\ ~Opaque(runs[a]) /\ ~Opaque(runs[b])) =>
        (runs[a].vars = runs[b].vars /\ Same(T, runs[a].den, runs[b].den))
 
 RECURSIVE FirstBad(_, _)
